@@ -236,6 +236,14 @@ func init() {
 		x.noteLastErr(st, fn, []Term{e})
 		return []Term{e}
 	}
+	// testify: Arguments is a []interface{}; Get(i) is element i (it panics in the library when i is out of
+	// range: not an obligation of the generated code), Error(i) is element i as an error (nil stays nil)
+	argGet := func(x *Exec, call *ast.CallExpr, fn *types.Func, recv *Term, args []Term, st *State) []Term {
+		st.assume(and(mk(SBool, "<=", intLit(0), args[0]), mk(SBool, "<", args[0], x.sliceLen(*recv))))
+		return []Term{sel(x.sliceElemsOf(*recv), args[0])}
+	}
+	specialExternals["github.com/stretchr/testify/mock.(Arguments).Get"] = argGet
+	specialExternals["github.com/stretchr/testify/mock.(Arguments).Error"] = argGet
 	specialExternals["bytes.(*Buffer).String"] = func(x *Exec, call *ast.CallExpr, fn *types.Func, recv *Term, args []Term, st *State) []Term {
 		h := x.heapGet(st, "G_bufContent", arraySort(SInt, SStr))
 		return []Term{sel(h, *recv)}
